@@ -150,7 +150,7 @@ func autoFieldBytes(k []byte) bool {
 // ---- values ----------------------------------------------------------------
 
 var oddValues = []string{"", "v w", "text/html; charset=utf-8", "x=y, z", "\xfc\xe9", " lead", "trail ", "\ttab\t", "a\r\nInjected: 1", "x\ny", "cr\rz", "\x00nul", "bell\x07", "del\x7f", strings.Repeat("L", 300), ":", "a:b"}
-var clValues = []string{"0", "7", "42", "1024"}
+var clValues = []string{"0", "7", "42", "1024", "007", "00"}
 var cookieValues = []string{"a=1", "b=2", "sid=abc123", "a=1; b=2", "k=v; k2=v2; k3=v3"}
 var setCookieValues = []string{"a=1", "b=2; Path=/", "sid=abc; HttpOnly; Secure", "a=3; Max-Age=0"}
 var trailerValues = []string{"Foo-Bar", "Expires", "foo-bar, expires", "X-Checksum,A", "Foo-Bar, Content-Length", "", "X"}
@@ -187,7 +187,7 @@ func genValue(rnd *rand.Rand, cname string, ctr *int) string {
 // ---- operations --------------------------------------------------------------
 
 type op struct {
-	Kind string `json:"kind"` // set | add | del | copy
+	Kind string `json:"kind"` // set | add | del | copy | status | collect | read | reuse
 	API  int    `json:"api"`  // 0: string API, 1: BytesK, 2: BytesV, 3: BytesKV (del: 0 Del, 1 DelBytes)
 	Key  string `json:"key"`
 	Val  string `json:"val"`
@@ -200,6 +200,14 @@ func (o op) String() string {
 		return fmt.Sprintf("Del(%q)", o.Key)
 	case "copy":
 		return "CopyTo(" + o.Sub + ")"
+	case "status":
+		return "SetStatusCode(" + o.Val + ")"
+	case "collect":
+		return o.Sub
+	case "read":
+		return fmt.Sprintf("Read(%q)", o.Val)
+	case "reuse":
+		return "Reset()+reuse"
 	}
 	n := map[string]string{"set": "Set", "add": "Add"}[o.Kind]
 	return fmt.Sprintf("%s%s(%q,%q)", n, []string{"", "BytesK", "BytesV", "BytesKV"}[o.API], o.Key, o.Val)
@@ -331,6 +339,7 @@ type caseState struct {
 	probes []string // names probed after every operation (norm off: every spelling)
 	pbuf   []string
 	kb     []byte
+	origin string // key prefix of the current round ("", "parsed/", "reused/", "reused-parsed/")
 }
 
 // probeNames: which spelled names are looked up after each step.
@@ -717,7 +726,7 @@ func (c *caseState) roundTrip(h hdr, m *model) {
 	var buf bytes.Buffer
 	bw := bufio.NewWriterSize(&buf, 1024)
 	if err := h.Write(bw); err != nil {
-		c.r.Violation(c.i, "roundtrip-write-error", c.what("Write: "+err.Error(), nil), c.payload(nil))
+		c.r.Violation(c.i, c.origin+"roundtrip-write-error", c.what("Write: "+err.Error(), nil), c.payload(nil))
 		return
 	}
 	bw.Flush()
@@ -726,7 +735,7 @@ func (c *caseState) roundTrip(h hdr, m *model) {
 	// 1. wire monitor.
 	wf, bad := parseWire(wire)
 	if bad != "" {
-		c.r.Violation(c.i, "roundtrip-wire-malformed", c.what("Write produced a malformed block ("+bad+")", nil), c.payload(map[string]any{"wire": string(wire)}))
+		c.r.Violation(c.i, c.origin+"roundtrip-wire-malformed", c.what("Write produced a malformed block ("+bad+")", nil), c.payload(map[string]any{"wire": string(wire)}))
 		return
 	}
 	var wireOrd []field
@@ -743,13 +752,13 @@ func (c *caseState) roundTrip(h hdr, m *model) {
 	}
 	if !eqFields(wireOrd, want.fields) {
 		key := "roundtrip-wire-ordinary-fields"
-		c.r.Violation(c.i, key, c.what("Write", []mismatch{{"wire-ordinary-fields", "", wireOrd, want.fields}}), c.payload(map[string]any{"wire": string(wire)}))
+		c.r.Violation(c.i, c.origin+key, c.what("Write", []mismatch{{"wire-ordinary-fields", "", wireOrd, want.fields}}), c.payload(map[string]any{"wire": string(wire)}))
 		return
 	}
 	for _, n := range specialNames {
 		k := kindOf(m.req, n)
-		if k == kOrdinary || n == "Content-Length" || n == "Connection" {
-			continue // framing fields are not judged
+		if k == kOrdinary || n == "Connection" {
+			continue // Connection is a framing field: not judged
 		}
 		var exp []string
 		switch k {
@@ -777,7 +786,7 @@ func (c *caseState) roundTrip(h hdr, m *model) {
 			got = nonEmpty(got)
 		}
 		if !eqStrs(got, exp) {
-			c.r.Violation(c.i, "roundtrip-wire-"+strings.ToLower(n), c.what("Write", []mismatch{{"wire-field", n, got, exp}}), c.payload(map[string]any{"wire": string(wire)}))
+			c.r.Violation(c.i, c.origin+"roundtrip-wire-"+strings.ToLower(n), c.what("Write", []mismatch{{"wire-field", n, got, exp}}), c.payload(map[string]any{"wire": string(wire)}))
 			return
 		}
 	}
@@ -794,7 +803,7 @@ func (c *caseState) roundTrip(h hdr, m *model) {
 	}
 	h2.SetNoDefaultContentType(m.noDefCT)
 	if err := h2.Read(bufio.NewReaderSize(bytes.NewReader(wire), len(wire)+64)); err != nil {
-		c.r.Violation(c.i, "roundtrip-read-error", c.what("Read of the written header: "+err.Error(), nil), c.payload(map[string]any{"wire": string(wire)}))
+		c.r.Violation(c.i, c.origin+"roundtrip-read-error", c.what("Read of the written header: "+err.Error(), nil), c.payload(map[string]any{"wire": string(wire)}))
 		return
 	}
 	skip := map[string]bool{"Content-Length": true, "Connection": true}
@@ -808,7 +817,7 @@ func (c *caseState) roundTrip(h hdr, m *model) {
 		if x.Name != "" {
 			kc = keyClass(m.req, want.key(x.Name))
 		}
-		c.r.Violation(c.i, fmt.Sprintf("roundtrip-readback-%s-%s", x.Obs, kc), c.what("Write+Read", mm), c.payload(map[string]any{"wire": string(wire), "mismatches": mm}))
+		c.r.Violation(c.i, c.origin+fmt.Sprintf("roundtrip-readback-%s-%s", x.Obs, kc), c.what("Write+Read", mm), c.payload(map[string]any{"wire": string(wire), "mismatches": mm}))
 		return
 	}
 	c.ev["roundtrips_checked"]++
@@ -864,6 +873,134 @@ type snapshot struct {
 	m *model
 }
 
+var wireStatus = []struct {
+	code int
+	line string
+}{{200, "HTTP/1.1 200 OK"}, {204, "HTTP/1.1 204 No Content"}, {304, "HTTP/1.1 304 Not Modified"}, {100, "HTTP/1.1 100 Continue"}, {404, "HTTP/1.1 404 Not Found"}, {200, "HTTP/1.1 200 OK"}}
+var wireTrailerValues = []string{"Foo-Bar", "Expires", "foo-bar, expires", "X-Checksum,A", "X"}
+var wireConnValues = []string{"keep-alive", "Upgrade", "close"}
+var wirePads = []string{" ", " ", " ", "", "  ", "\t"}
+var opStatusCodes = []string{"204", "304", "100", "200", "404"}
+
+// genWire produces a header block as a peer could send it: fields in PRNG
+// order (Cookie anywhere), names in any letter case, optional whitespace
+// around values. It returns the bytes and the field lines as written (values
+// without the surrounding whitespace) - the independent parse of those bytes.
+func (c *caseState) genWire() (wire string, lines []field, status int, cookieLines int, cookieLast bool) {
+	used := map[string]bool{}
+	n := 1 + c.rnd.Intn(8)
+	for k := 0; k < n; k++ {
+		name := c.pickName()
+		cn := canon(name)
+		kd := kindOf(c.req, cn)
+		if !c.norm {
+			kd = kindOf(c.req, name)
+		}
+		single := kd == kSingle || kd == kTrailer || (kd == kCookie && c.req)
+		if single && used[cn] {
+			if !(kd == kCookie && c.rnd.Intn(4) == 0) { // now and then a second Cookie line
+				continue
+			}
+		}
+		var v string
+		switch {
+		case kd == kTrailer:
+			v = wireTrailerValues[c.rnd.Intn(len(wireTrailerValues))]
+		case kd == kSingle && cn == "Connection":
+			v = wireConnValues[c.rnd.Intn(len(wireConnValues))]
+		case kd == kSingle && cn == "Host":
+			c.ctr++
+			v = fmt.Sprintf("h%d.example", c.ctr)
+		default:
+			v = trimOWS(genValue(c.rnd, cn, &c.ctr))
+			if !wireSafe(v) || strings.ContainsAny(v, "\r\n") {
+				c.ctr++
+				v = fmt.Sprint(c.ctr)
+			}
+		}
+		if single {
+			used[cn] = true
+		}
+		lines = append(lines, field{name, v})
+	}
+	insert := func(f field) {
+		at := c.rnd.Intn(len(lines) + 1)
+		lines = append(lines, field{})
+		copy(lines[at+1:], lines[at:])
+		lines[at] = f
+	}
+	var b strings.Builder
+	if c.req {
+		if !used["Host"] {
+			c.ctr++
+			insert(field{"Host", fmt.Sprintf("h%d.example", c.ctr)})
+		}
+		b.WriteString([]string{"GET / HTTP/1.1", "POST /p?q=1 HTTP/1.1", "GET /x HTTP/1.1"}[c.rnd.Intn(3)])
+	} else {
+		if !used["Content-Length"] {
+			// without a length the reader turns the response into 'Connection: close' (framing)
+			insert(field{"Content-Length", clValues[c.rnd.Intn(len(clValues))]})
+		}
+		st := wireStatus[c.rnd.Intn(len(wireStatus))]
+		status = st.code
+		b.WriteString(st.line)
+	}
+	b.WriteString("\r\n")
+	lastOrd := -1
+	for i, f := range lines {
+		k := f.K
+		if c.norm {
+			k = canon(k)
+		}
+		if kindOf(c.req, k) == kCookie && c.req {
+			cookieLines++
+			cookieLast = true
+		} else if kindOf(c.req, k) == kOrdinary || k == "Connection" {
+			cookieLast = false
+			lastOrd = i
+		}
+		b.WriteString(f.K)
+		b.WriteString(":")
+		b.WriteString(wirePads[c.rnd.Intn(len(wirePads))])
+		b.WriteString(f.V)
+		if c.rnd.Intn(6) == 0 {
+			b.WriteString(wirePads[c.rnd.Intn(len(wirePads))])
+		}
+		b.WriteString("\r\n")
+	}
+	_ = lastOrd
+	b.WriteString("\r\n")
+	return b.String(), lines, status, cookieLines, cookieLast
+}
+
+var collectKinds = []string{"Cookie(a)", "Len()", "Cookies()", "DelCookie(absent)", "SetCookie(zz,9)", "PeekKeys()", "All()-first"}
+
+// collect performs one of the RequestHeader calls that move the Cookie field
+// out of the ordinary field list.
+func collect(h hdr, m *model, which string) {
+	rh := h.(*fasthttp.RequestHeader)
+	switch which {
+	case "Cookie(a)":
+		_ = rh.Cookie("a")
+	case "Len()":
+		_ = rh.Len()
+	case "Cookies()":
+		for range rh.Cookies() {
+		}
+	case "DelCookie(absent)":
+		rh.DelCookie("no-such-cookie")
+	case "SetCookie(zz,9)":
+		rh.SetCookie("zz", "9")
+		m.setCookie("zz", "9")
+	case "PeekKeys()":
+		_ = rh.PeekKeys()
+	default:
+		for range rh.All() {
+			break
+		}
+	}
+}
+
 func runCase(r *mon.Run, i int, ev map[string]int) {
 	c := &caseState{r: r, i: i, rnd: r.Rand("seq", i), req: i%2 == 0, norm: (i/2)%2 == 0, ev: ev}
 	defer func() {
@@ -885,13 +1022,28 @@ func runCase(r *mon.Run, i int, ev map[string]int) {
 	noDefCT := c.rnd.Intn(4) == 0
 	h := newHdr(c.req)
 	c.prepare(h, noDefCT)
-	m := newModel(c.req, c.norm, noDefCT)
+	var m *model
 
-	var snaps []snapshot
-	nOps := 1 + c.rnd.Intn(12)
 	feat := map[string]bool{}
 	hitMulti, specialsTouched, reordered := false, 0, false
 	aborted := false
+	origin := "" // where the header of this round comes from: "", "parsed/", "reused/", "reused-parsed/"
+	rt := "none"
+	parsedCookieMid := false
+
+	fail := func(key, stage string, mm []mismatch) {
+		r.Violation(i, origin+key, c.what(stage, mm), c.payload(map[string]any{"mismatches": mm, "origin": origin}))
+		aborted = true
+	}
+	nameRel := func(x mismatch, ck string) string {
+		if x.Name == "" {
+			return "whole-header"
+		}
+		if m.key(x.Name) == ck {
+			return "same-name"
+		}
+		return "other-name"
+	}
 
 	step := func(o op) bool {
 		c.log = append(c.log, o)
@@ -917,6 +1069,18 @@ func runCase(r *mon.Run, i int, ev map[string]int) {
 		if strings.ContainsAny(o.Val, "\r\n") && o.Kind != "del" {
 			c.ev["crlf_values_neutralised"]++
 		}
+		if !c.req && ck == "Content-Length" && o.Kind != "del" {
+			switch m.status {
+			case 204, 304, 100:
+				c.ev["content_length_set_under_bodyless_status"]++
+			}
+			if len(o.Val) > 1 && o.Val[0] == '0' {
+				c.ev["content_length_with_leading_zero"]++
+			}
+		}
+		if parsedCookieMid && o.Kind != "del" && !m.present(ck) {
+			c.ev["new_name_added_after_midheader_cookie_was_collected"]++
+		}
 		applyReal(h, o)
 		if o.Kind == "del" {
 			m.del(o.Key)
@@ -938,7 +1102,7 @@ func runCase(r *mon.Run, i int, ev map[string]int) {
 		if removal != "" {
 			obs := observedOrdinary(h, c.req)
 			if sym := reorderOnly(mm, m, obs, ck); sym != "" {
-				r.Violation(i, removal+"-reorders-"+sym, c.what(o.String(), mm), c.payload(map[string]any{"mismatches": mm}))
+				r.Violation(i, origin+removal+"-reorders-"+sym, c.what(o.String(), mm), c.payload(map[string]any{"mismatches": mm}))
 				m.fields = obs // adopt the observed order so that the rest of the sequence is still judged
 				reordered = true
 				c.ev["model_resynchronised_after_reorder"]++
@@ -946,105 +1110,190 @@ func runCase(r *mon.Run, i int, ev map[string]int) {
 			}
 		}
 		x := mm[0]
-		rel := "whole-header"
-		if x.Name != "" {
-			rel = "other-name"
-			if m.key(x.Name) == ck {
-				rel = "same-name"
+		key := fmt.Sprintf("%s-%s/%s-%s", o.Kind, keyClass(c.req, ck), x.Obs, nameRel(x, ck))
+		if !c.req && ck == "Content-Length" && o.Kind != "del" {
+			switch {
+			case m.status != 0 && m.status != 200:
+				key += fmt.Sprintf("/status=%d", m.status)
+			case len(o.Val) > 1 && o.Val[0] == '0':
+				key += "/leading-zero"
 			}
 		}
-		r.Violation(i, fmt.Sprintf("%s-%s/%s-%s", o.Kind, keyClass(c.req, ck), x.Obs, rel), c.what(o.String(), mm), c.payload(map[string]any{"mismatches": mm}))
+		fail(key, o.String(), mm)
 		return false
 	}
 
-	for n := 0; n < nOps && !aborted; n++ {
-		x := c.rnd.Intn(100)
-		switch {
-		case x < 6:
-			// CopyTo into a (possibly used) header; optionally continue on the copy.
-			dst := newHdr(c.req)
-			c.prepare(dst, c.aux.Intn(2) == 0)
-			if c.aux.Intn(2) == 0 {
-				dst.Add("X", "old")
-				dst.Set("Content-Type", "old/type")
-				dst.Add("A", "old")
-			}
-			o := op{Kind: "copy", Sub: "keep"}
-			if c.rnd.Intn(2) == 0 {
-				o.Sub = "switch"
-			}
-			c.log = append(c.log, o)
-			copyTo(h, dst)
-			feat["copy"] = true
-			mc := m.clone()
-			if mm := c.verify(dst, mc, nil); len(mm) > 0 {
-				y := mm[0]
-				kc := "whole-header"
-				if y.Name != "" {
-					kc = keyClass(c.req, mc.key(y.Name))
-				}
-				r.Violation(i, fmt.Sprintf("copyto-%s-%s", y.Obs, kc), c.what("CopyTo (destination)", mm), c.payload(map[string]any{"mismatches": mm}))
-				aborted = true
-				break
-			}
-			c.ev["copyto_checked"]++
-			if o.Sub == "switch" {
-				snaps = append(snaps, snapshot{h, m})
-				h, m = dst, mc
-			} else {
-				snaps = append(snaps, snapshot{dst, mc})
-			}
-		default:
-			var o op
-			switch {
-			case x < 26:
-				o.Kind = "del"
-				o.API = c.rnd.Intn(2)
-			case x < 52:
-				o.Kind = "set"
-				o.API = c.rnd.Intn(4)
-			default:
-				o.Kind = "add"
-				o.API = c.rnd.Intn(4)
-			}
-			o.Key = c.pickName()
-			if o.Kind != "del" {
-				o.Val = genValue(c.rnd, canon(o.Key), &c.ctr)
-			}
-			feat[o.Kind] = true
-			if !step(o) {
-				aborted = true
-			}
-		}
+	rounds := 1
+	if c.rnd.Intn(3) == 0 {
+		rounds = 2
 	}
+	for round := 0; round < rounds && !aborted; round++ {
+		var snaps []snapshot
+		origin = ""
+		parsedCookieMid = false
+		if round > 0 {
+			// the same object serves the next sequence, as a pooled header does
+			origin = "reused/"
+			c.log = append(c.log, op{Kind: "reuse"})
+			h.Reset()
+			if !c.norm {
+				h.DisableNormalizing()
+			}
+			h.SetNoDefaultContentType(noDefCT)
+			c.ev["rounds_on_reused_object"]++
+		}
+		m = newModel(c.req, c.norm, noDefCT)
 
-	rt := "none"
-	if !aborted {
-		// the other side of every CopyTo must not have been affected by later operations
-		for _, s := range snaps {
-			if mm := c.verify(s.h, s.m, nil); len(mm) > 0 {
-				r.Violation(i, "copyto-aliasing-"+mm[0].Obs, c.what("later operations on the other header of a CopyTo pair", mm), c.payload(map[string]any{"mismatches": mm}))
-				aborted = true
+		if c.rnd.Intn(100) < 45 {
+			// start from a header parsed from wire bytes
+			wire, lines, status, cookieLines, cookieLast := c.genWire()
+			origin = strings.TrimSuffix(origin, "/")
+			if origin != "" {
+				origin += "-"
+			}
+			origin += "parsed/"
+			c.log = append(c.log, op{Kind: "read", Val: wire})
+			feat["read"] = true
+			if err := h.Read(bufio.NewReaderSize(strings.NewReader(wire), len(wire)+64)); err != nil {
+				fail("read-error", "Read: "+err.Error(), nil)
 				break
 			}
-			c.ev["copyto_independence_checked"]++
+			for _, f := range lines {
+				m.set(f.K, f.V, true)
+			}
+			m.status = status
+			c.ev["started_from_parsed_header"]++
+			if c.req && cookieLines > 0 && !cookieLast {
+				parsedCookieMid = true
+				c.ev["parsed_header_with_cookie_before_other_fields"]++
+			}
+			if c.req && (cookieLines > 1 || c.rnd.Intn(2) == 0) {
+				// an explicit cookie-collecting call before anything else looks at the header
+				// (with two Cookie lines Peek("Cookie") is only defined after collection)
+				o := op{Kind: "collect", Sub: collectKinds[c.rnd.Intn(len(collectKinds))]}
+				c.log = append(c.log, o)
+				collect(h, m, o.Sub)
+				c.ev["collect_calls"]++
+			}
+			if mm := c.verify(h, m, nil); len(mm) > 0 {
+				x := mm[0]
+				kc := "whole-header"
+				if x.Name != "" {
+					kc = keyClass(c.req, m.key(x.Name))
+				}
+				fail(fmt.Sprintf("after-read-%s-%s", x.Obs, kc), "Read", mm)
+				break
+			}
+			c.ev["parsed_headers_checked"]++
 		}
-	}
-	if !aborted {
-		if c.req && trimOWS(m.single["Host"]) == "" {
-			// an HTTP/1.1 request header cannot be read back without Host
-			if !step(op{Kind: "set", Key: "Host", Val: "example.com"}) {
-				aborted = true
+
+		nOps := 1 + c.rnd.Intn(12)
+		for n := 0; n < nOps && !aborted; n++ {
+			x := c.rnd.Intn(100)
+			switch {
+			case x < 6:
+				// CopyTo into a (possibly used) header; optionally continue on the copy.
+				dst := newHdr(c.req)
+				c.prepare(dst, c.aux.Intn(2) == 0)
+				if c.aux.Intn(2) == 0 {
+					dst.Add("X", "old")
+					dst.Set("Content-Type", "old/type")
+					dst.Add("A", "old")
+					dst.Set("Content-Length", "99")
+				}
+				o := op{Kind: "copy", Sub: "keep"}
+				if c.rnd.Intn(2) == 0 {
+					o.Sub = "switch"
+				}
+				c.log = append(c.log, o)
+				copyTo(h, dst)
+				feat["copy"] = true
+				mc := m.clone()
+				if mm := c.verify(dst, mc, nil); len(mm) > 0 {
+					y := mm[0]
+					kc := "whole-header"
+					if y.Name != "" {
+						kc = keyClass(c.req, mc.key(y.Name))
+					}
+					fail(fmt.Sprintf("copyto-%s-%s", y.Obs, kc), "CopyTo (destination)", mm)
+					break
+				}
+				c.ev["copyto_checked"]++
+				if o.Sub == "switch" {
+					snaps = append(snaps, snapshot{h, m})
+					h, m = dst, mc
+				} else {
+					snaps = append(snaps, snapshot{dst, mc})
+				}
+			case x < 11 && !c.req:
+				// the status code must not change what the header API reports
+				o := op{Kind: "status", Val: opStatusCodes[c.rnd.Intn(len(opStatusCodes))]}
+				c.log = append(c.log, o)
+				code := 0
+				fmt.Sscan(o.Val, &code)
+				h.(*fasthttp.ResponseHeader).SetStatusCode(code)
+				m.status = code
+				feat["status"] = true
+				c.ev["status_ops"]++
+				if mm := c.verify(h, m, nil); len(mm) > 0 {
+					fail(fmt.Sprintf("status-%s/%s", o.Val, mm[0].Obs), o.String(), mm)
+				}
+			case x < 10 && c.req:
+				o := op{Kind: "collect", Sub: collectKinds[c.rnd.Intn(len(collectKinds))]}
+				c.log = append(c.log, o)
+				collect(h, m, o.Sub)
+				feat["collect"] = true
+				c.ev["collect_calls"]++
+				if mm := c.verify(h, m, nil); len(mm) > 0 {
+					fail(fmt.Sprintf("collect/%s-%s", mm[0].Obs, nameRel(mm[0], "Cookie")), o.String(), mm)
+				}
+			default:
+				var o op
+				switch {
+				case x < 28:
+					o.Kind = "del"
+					o.API = c.rnd.Intn(2)
+				case x < 53:
+					o.Kind = "set"
+					o.API = c.rnd.Intn(4)
+				default:
+					o.Kind = "add"
+					o.API = c.rnd.Intn(4)
+				}
+				o.Key = c.pickName()
+				if o.Kind != "del" {
+					o.Val = genValue(c.rnd, canon(o.Key), &c.ctr)
+				}
+				feat[o.Kind] = true
+				if !step(o) {
+					aborted = true
+				}
 			}
 		}
-	}
-	if !aborted {
-		before := c.ev["roundtrips_checked"]
-		c.roundTrip(h, m)
-		if c.ev["roundtrips_checked"] > before {
-			rt = "done"
-		} else {
-			rt = "skipped-or-failed"
+
+		if !aborted {
+			// the other side of every CopyTo must not have been affected by later operations
+			for _, s := range snaps {
+				if mm := c.verify(s.h, s.m, nil); len(mm) > 0 {
+					fail("copyto-aliasing-"+mm[0].Obs, "later operations on the other header of a CopyTo pair", mm)
+					break
+				}
+				c.ev["copyto_independence_checked"]++
+			}
+		}
+		if !aborted && c.req && trimOWS(m.single["Host"]) == "" {
+			// an HTTP/1.1 request header cannot be read back without Host
+			step(op{Kind: "set", Key: "Host", Val: "example.com"})
+		}
+		if !aborted {
+			before := c.ev["roundtrips_checked"]
+			c.origin = origin
+			c.roundTrip(h, m)
+			if c.ev["roundtrips_checked"] > before {
+				rt = "done"
+			} else {
+				rt = "skipped-or-failed"
+			}
 		}
 	}
 
@@ -1061,8 +1310,8 @@ func runCase(r *mon.Run, i int, ev map[string]int) {
 		fk = append(fk, k)
 	}
 	sort.Strings(fk)
-	class := fmt.Sprintf("%v/norm=%v/ops=%v/special=%d/multi=%d/hit=%v/rt=%s/reordered=%v", c.req, c.norm, fk, min(specialsTouched, 3), min(multi, 2), hitMulti, rt, reordered)
-	r.Case(class, hitMulti || (multi > 0 && specialsTouched > 0))
+	class := fmt.Sprintf("%v/norm=%v/ops=%v/rounds=%d/special=%d/multi=%d/hit=%v/rt=%s/reordered=%v", c.req, c.norm, fk, rounds, min(specialsTouched, 3), min(multi, 2), hitMulti, rt, reordered)
+	r.Case(class, hitMulti || (multi > 0 && specialsTouched > 0) || (feat["read"] && multi > 0))
 	if hitMulti && r.WantSample() {
 		var s []string
 		for _, o := range c.log {
@@ -1076,10 +1325,11 @@ func runCase(r *mon.Run, i int, ev map[string]int) {
 func TestC29(t *testing.T) {
 	r := mon.Start(t, "C29")
 	defer r.Finish()
-	r.Rule("case = sequence of 1-12 operations (Set/Add/Del with their Bytes variants, CopyTo) on a RequestHeader (even cases) or ResponseHeader (odd), normalisation on/off alternating; names drawn from 4 ordinary names (A, X, Foo-Bar, Accept) and the 9 special names in 4 letter cases; values: distinct counters, odd strings (empty, OWS, CR/LF, NUL, obs-text, 300 bytes) and random bytes; after every operation Peek/PeekBytes/PeekAll of every name, PeekKeys and All are compared with the model; each sequence ends with Write -> independent wire parse -> Read -> compare. distinct = (type, normalisation, op kinds used, #special names touched, #multi-valued names, round trip outcome); non-trivial = a Del/Set hit a present name while another name held >= 2 values, or multi-valued and special names coexist")
-	r.Assume("the model (net/textproto canonicalisation, ordered slice) is a faithful reading of the doc comments in header.go: Set replaces the first value, special names single-valued also under Add, Cookie/Set-Cookie accumulate and are observed joined with '; ', Trailer holds a filtered name list, CR and LF in values become spaces")
+	r.Rule("case = 1-2 sequences ('rounds') on one header object (the second round re-uses it after Reset, as a pooled header), RequestHeader (even cases) or ResponseHeader (odd), normalisation on/off alternating; a round starts from an empty header or (45%) from a header Read from generated wire bytes (1-8 fields in PRNG order, Cookie/Host/Content-Length at any position, names in any letter case, optional whitespace around values, response status 200/204/304/100/404) with the model initialised from the generated field lines; then 1-12 operations: Set/Add/Del with their Bytes variants, CopyTo, for responses SetStatusCode(204|304|100|200|404), for requests cookie-collecting calls (Cookie, Len, Cookies, DelCookie, SetCookie, PeekKeys, All); names drawn from 4 ordinary names (A, X, Foo-Bar, Accept) and the 9 special names in 4 letter cases; values: distinct counters, odd strings (empty, OWS, CR/LF, NUL, obs-text, 300 bytes), random bytes, Content-Length incl. leading zeros; after every operation Peek/PeekBytes/PeekAll of every name, PeekKeys and All are compared with the model; each round ends with Write -> independent wire parse -> Read -> compare. distinct = (type, normalisation, op kinds used, rounds, #special names touched, #multi-valued names, round trip outcome); non-trivial = a Del/Set hit a present name while another name held >= 2 values, or multi-valued and special names coexist, or a parsed header with a multi-valued name")
+	r.Assume("the model (net/textproto canonicalisation, ordered slice) is a faithful reading of the doc comments in header.go: Set replaces the first value, special names single-valued also under Add, Cookie/Set-Cookie accumulate and are observed joined with '; ', Trailer holds a filtered name list, CR and LF in values become spaces; neither SetStatusCode nor Set/Add document any dependence of Content-Length on the status code, so none is modelled; a numeric Content-Length reads back as given (leading zeros kept)")
 	r.Assume("names are restricted to RFC 9110 tokens (where fasthttp's normaliser and textproto agree)")
-	r.Assume("not judged (counted as skipped_/rt_skipped_ events): with normalisation off, special names spelled in non-canonical case (docs silent on whether 'content-type' is special); Content-Length values that are not numbers; Transfer-Encoding, Date and Content-Encoding (managed automatically / special only for responses, not in the property's list); PeekAll of an absent special name returning one empty value; round trip of values that are not field-content (CTL bytes) and of framing fields (Content-Length, Connection, Transfer-Encoding, Date, default Content-Type)")
+	r.Assume("generated wire blocks are well-formed: one Host (requests), at most one line of each single-valued special name, a Content-Length in every response (a response without one is turned into 'Connection: close' by the reader: framing), Connection values keep-alive/Upgrade/close, no forbidden trailer names; two Cookie lines only together with an explicit collecting call before the first Peek")
+	r.Assume("not judged (counted as skipped_/rt_skipped_ events): with normalisation off, special names spelled in non-canonical case (docs silent on whether 'content-type' is special); Content-Length values that are not numbers; Transfer-Encoding, Date and Content-Encoding (managed automatically / special only for responses, not in the property's list); PeekAll of an absent special name returning one empty value; round trip of values that are not field-content (CTL bytes); Connection, Transfer-Encoding, Date and the default Content-Type on the round trip; Content-Length is judged on the written bytes but not after reading back")
 	r.Assume("across names, 'ordered' is read as insertion order of the ordinary fields (PeekKeys/All/wire order); special names are emitted at fixed positions and are compared per name only")
 	n := r.N(200_000, 10_000_000)
 	const block = 1000
@@ -1103,5 +1353,12 @@ func TestC29(t *testing.T) {
 		r.Require("roundtrips_checked", n/2)
 		r.Require("copyto_checked", n/20)
 		r.Require("del_of_present_name_beside_multivalued_name", n/50)
+		r.Require("parsed_headers_checked", n/4)
+		r.Require("parsed_header_with_cookie_before_other_fields", n/100)
+		r.Require("new_name_added_after_midheader_cookie_was_collected", n/200)
+		r.Require("rounds_on_reused_object", n/5)
+		r.Require("content_length_set_under_bodyless_status", n/500)
+		r.Require("content_length_with_leading_zero", n/200)
+		r.Require("status_ops", n/20)
 	}
 }
